@@ -162,7 +162,7 @@ struct SIMDVector<std::complex<T>, simd_abi::scalar> {
     FASTOR_INLINE scalar_value_type minimum() const {return scalar_value_type(value_r, value_i);}
     FASTOR_INLINE scalar_value_type maximum() const {return scalar_value_type(value_r, value_i);}
     FASTOR_INLINE scalar_value_type dot(const vector_type &other) const {
-        return vector_type(value_r, value_i)*vector_type(other.value_r, other.value_i);
+        return (vector_type(value_r, value_i)*vector_type(other.value_r, other.value_i)).sum();
     }
 
     value_type value_r;
